@@ -151,7 +151,7 @@ impl<K: SimK, V: SimV> Cx<K, V> {
     pub fn ret_k(&mut self, what: &str, k: K) {
         let p = k.peek();
         self.dg(p.id);
-        let live = p.anon || (p.bad == 0 && env::with(|e| p.id != 0 && (p.id as usize) <= e.objs.len() && e.objs[p.id as usize - 1].live()));
+        let live = env::peek_live(&p);
         if !live {
             violate("use-of-nonlive", format!("{what} returned a key that is not a live object (bad={}, id={})", p.bad, p.id));
         } else if !k.intact() {
@@ -163,7 +163,7 @@ impl<K: SimK, V: SimV> Cx<K, V> {
     pub fn ret_v(&mut self, what: &str, v: V) {
         let p = v.peek();
         self.dg(p.id);
-        let live = p.anon || (p.bad == 0 && env::with(|e| p.id != 0 && (p.id as usize) <= e.objs.len() && e.objs[p.id as usize - 1].live()));
+        let live = env::peek_live(&p);
         if !live {
             violate("use-of-nonlive", format!("{what} returned a value that is not a live object (bad={}, id={})", p.bad, p.id));
         } else if !v.intact() {
@@ -176,7 +176,7 @@ impl<K: SimK, V: SimV> Cx<K, V> {
     pub fn see_k(&mut self, what: &str, k: &K, base: usize, size: usize) -> u64 {
         let p = k.peek();
         self.dg(p.id);
-        let live = p.anon || (p.bad == 0 && env::with(|e| p.id != 0 && (p.id as usize) <= e.objs.len() && e.objs[p.id as usize - 1].live()));
+        let live = env::peek_live(&p);
         if !live {
             violate("use-of-nonlive", format!("{what} handed out a reference to a key that is not live (bad={}, id={})", p.bad, p.id));
         }
@@ -187,7 +187,7 @@ impl<K: SimK, V: SimV> Cx<K, V> {
     pub fn see_v(&mut self, what: &str, v: &V, base: usize, size: usize) -> u64 {
         let p = v.peek();
         self.dg(p.id);
-        let live = p.anon || (p.bad == 0 && env::with(|e| p.id != 0 && (p.id as usize) <= e.objs.len() && e.objs[p.id as usize - 1].live()));
+        let live = env::peek_live(&p);
         if !live {
             violate("use-of-nonlive", format!("{what} handed out a reference to a value that is not live (bad={}, id={})", p.bad, p.id));
         }
@@ -258,7 +258,7 @@ pub fn wf_map<K: SimK, V: SimV, const C: usize>(name: &str, m: &Map<K, V, C>, ly
             if p.anon {
                 continue;
             }
-            let live = p.bad == 0 && env::with(|e| p.id != 0 && (p.id as usize) <= e.objs.len() && e.objs[p.id as usize - 1].live());
+            let live = env::peek_live(&p);
             if !live {
                 violate("yields-nonlive", format!("{name}: iteration yields a {} that is not a live object (bad={}, id={})", env::kname(p.kind), p.bad, p.id));
                 return;
@@ -346,7 +346,7 @@ pub fn wf_set<K: SimK, const C: usize>(name: &str, s: &Set<K, C>, lying: bool) {
         if p.anon {
             continue;
         }
-        let live = p.bad == 0 && env::with(|e| p.id != 0 && (p.id as usize) <= e.objs.len() && e.objs[p.id as usize - 1].live());
+        let live = env::peek_live(&p);
         if !live {
             violate("yields-nonlive", format!("{name}: iteration yields a key that is not a live object (bad={}, id={})", p.bad, p.id));
             return;
